@@ -397,6 +397,7 @@ package protocol
 //@   ensures err == nil ==> len(b2) == len(b1) && bytes_eq(b2, 0, b1, 0, len(b1))
 
 //@ func lemmaEthIPv6H(e, ip, hel, o, u) (d, err, b1, b2) [C09]
+//@   bounded a hop-by-hop header with exactly one option
 //@   inlinecalls
 //@   modreach
 //@   unroll 3
@@ -424,6 +425,7 @@ package protocol
 
 // IGMPv3 instances (list lengths fixed by the lemma bodies, everything else symbolic)
 //@ func lemmaIGMPv3Query2(q, s1, s2) (d, err, b1, b2) [C09]
+//@   bounded exactly two source addresses
 //@   inlinecalls
 //@   modreach
 //@   unroll 4
@@ -435,6 +437,7 @@ package protocol
 //@   ensures err == nil ==> len(b1) == 20 && len(b2) == len(b1) && bytes_eq(b2, 0, b1, 0, len(b1))
 
 //@ func lemmaIGMPv3Record2(r, s1, s2, aux) (d, err, b1, b2) [C09]
+//@   bounded exactly two source addresses and one auxiliary word
 //@   inlinecalls
 //@   modreach
 //@   unroll 4
@@ -446,6 +449,7 @@ package protocol
 //@   ensures err == nil ==> len(b1) == 20 && len(b2) == len(b1) && bytes_eq(b2, 0, b1, 0, len(b1))
 
 //@ func lemmaIGMPv3Report2(p, t1, t2, g1, g2, s1, s2, s3) (d, err, b1, b2) [C09]
+//@   bounded exactly two group records (one and two sources)
 //@   inlinecalls
 //@   modreach
 //@   unroll 4
@@ -469,6 +473,7 @@ package protocol
 
 // DHCP (RFC 2131 / 2132): 236 fixed bytes, magic cookie 0x63825363, options (tag, length, data), END (255).
 //@ func lemmaDHCP(d, tag, data) (r, n1, n2, err, b1) [C09]
+//@   bounded exactly one ordinary option (plus the end option)
 //@   inlinecalls
 //@   modreach
 //@   unroll 4
@@ -480,6 +485,7 @@ package protocol
 //@   ensures err == nil ==> len(r.Options) == 1 && typeis(r.Options[0], *dhcpoption) && r.Options[0].(*dhcpoption).tag == tag && len(r.Options[0].(*dhcpoption).data) == len(data)
 
 //@ func lemmaDHCPPad(d, tag, data) (n1, size, b1) [C09]
+//@   bounded a pad option followed by one ordinary option
 //@   inlinecalls
 //@   modreach
 //@   unroll 4
